@@ -234,6 +234,7 @@ class Env(object):
 class Interp(object):
     def __init__(self, ctx, prefixes=('spyne',)):
         self.ctx = ctx                     # pyvc.path.Path
+        S.CURRENT_CTX[0] = ctx
         self.prefixes = tuple(prefixes)
         self.models = {}                   # function object -> model(interp, args, kwargs)
         self.native = set()                # functions to run natively although interpretable
